@@ -133,3 +133,69 @@ def filter_shape(e: ast.AST) -> Tuple[frozenset, str, str]:
 def all_flag_values(names: List[str]):
     for vals in itertools.product([False, True], repeat=len(names)):
         yield dict(zip(names, vals))
+
+
+# ------------------------------------------------------------- operator tables
+def _is_name(e, name):
+    return isinstance(e, ast.Name) and e.id == name
+
+
+def _is_recip(e, name):
+    return isinstance(e, ast.BinOp) and isinstance(e.op, ast.Div) and isinstance(e.left, ast.Constant) and \
+        e.left.value in (1, 1.0) and _is_name(e.right, name)
+
+
+def scaling(stmt: ast.stmt, by: str) -> Optional[Tuple[ast.AST, str]]:
+    """(target node, 'div' | 'mul' | 'other') if the statement rescales its
+    target by the parameter ``by``; None if it is not an update of a target by
+    an expression mentioning ``by``.  Accepted idioms: x /= by, x = x / by,
+    x *= 1 / by (div); x *= by, x = x * by, x = by * x, x /= 1 / by (mul)."""
+    if isinstance(stmt, ast.AugAssign):
+        t, v = stmt.target, stmt.value
+        mentions = any(_is_name(n, by) for n in ast.walk(v))
+        if not mentions:
+            return None
+        if isinstance(stmt.op, ast.Div):
+            if _is_name(v, by):
+                return t, "div"
+            if _is_recip(v, by):
+                return t, "mul"
+        if isinstance(stmt.op, ast.Mult):
+            if _is_name(v, by):
+                return t, "mul"
+            if _is_recip(v, by):
+                return t, "div"
+        return t, "other"
+    if isinstance(stmt, ast.Assign) and len(stmt.targets) == 1:
+        t, v = stmt.targets[0], stmt.value
+        if not any(_is_name(n, by) for n in ast.walk(v)):
+            return None
+        if isinstance(v, ast.BinOp):
+            tt = ast.unparse(t)
+            l, r = v.left, v.right
+            if isinstance(v.op, ast.Div) and ast.unparse(l) == tt:
+                if _is_name(r, by):
+                    return t, "div"
+                if _is_recip(r, by):
+                    return t, "mul"
+            if isinstance(v.op, ast.Mult):
+                if ast.unparse(l) == tt and _is_name(r, by) or ast.unparse(r) == tt and _is_name(l, by):
+                    return t, "mul"
+                if ast.unparse(l) == tt and _is_recip(r, by) or ast.unparse(r) == tt and _is_recip(l, by):
+                    return t, "div"
+            if ast.unparse(l) == tt or ast.unparse(r) == tt:
+                return t, "other"
+        return None
+    return None
+
+
+def rebinds(fn: ast.FunctionDef, name: str) -> List[ast.AST]:
+    out = []
+    for n in ast.walk(fn):
+        if isinstance(n, (ast.Assign, ast.AugAssign, ast.AnnAssign)):
+            ts = n.targets if isinstance(n, ast.Assign) else [n.target]
+            for t in ts:
+                for x in ast.walk(t):
+                    if isinstance(x, ast.Name) and x.id == name and isinstance(x.ctx, ast.Store):
+                        out.append(n)
+    return out
